@@ -131,8 +131,15 @@ GenericWF(in) == Skip(TSTRUCT, in, 1, 100000) > 0
 \* allocation allowance: proportional to the input plus a constant
 AllocBound(n) == 4096 * n + 1048576
 
+\* a decode that panicked / crashed / hung: never allowed (C05); if the input was a well-formed
+\* message for the type it is also a failure to accept it (C03)
+DecodeDied(ty, in, dest, out) ==
+  LET r == Dec(ty, in, dest) IN
+  [fail |-> {"dec_nocrash"} \cup (IF r.st = "ok" /\ ~r.q /\ r.d <= AlwaysAcceptedDepth THEN {"dec_accept"} ELSE {}),
+   cls |-> "Decode/" \o r.st \o ">" \o out]
+
 JDecode(ty, in, dest, obs) ==
-  IF obs.out \in {"panic", "crash", "timeout"} THEN [fail |-> {"dec_nocrash"}, cls |-> "Decode/?>" \o obs.out]
+  IF obs.out \in {"panic", "crash", "timeout"} THEN DecodeDied(ty, in, dest, obs.out)
   ELSE
   LET r == Dec(ty, in, dest) IN
   [ cls |-> "Decode/" \o r.st \o
